@@ -87,6 +87,16 @@ fn feed_n<D: DiffHook<Error = HookErr>>(d: &mut D, script: &[Call], twice: bool)
     (r2, fed + fed2)
 }
 
+fn shift_call(c: Call, so: usize, sn: usize) -> Call {
+    match c {
+        Call::Equal(o, n, l) => Call::Equal(o + so, n + sn, l),
+        Call::Delete(o, l, n) => Call::Delete(o + so, l, n + sn),
+        Call::Insert(o, n, l) => Call::Insert(o + so, n + sn, l),
+        Call::Replace(o, ol, n, nl) => Call::Replace(o + so, ol, n + sn, nl),
+        Call::Finish => Call::Finish,
+    }
+}
+
 pub fn run_fed2(
     seq: &SeqCase,
     script: &[Call],
@@ -94,9 +104,43 @@ pub fn run_fed2(
     fail_at: Option<usize>,
     twice: bool,
 ) -> Result<Fed, String> {
+    if seq.index == IndexKind::Far {
+        // the same history over lookups whose index space starts at a huge
+        // base: calls are shifted on the way in and back on the way out
+        let (so, sn) = seq.far_bases();
+        let shifted: Vec<Call> = script.iter().map(|c| shift_call(*c, so, sn)).collect();
+        let fo = crate::simenv::Far { data: &seq.old[..], base: so };
+        let fnew = crate::simenv::Far { data: &seq.new[..], base: sn };
+        let mut fed = run_stack(seq, &fo, &fnew, &shifted, stack, fail_at, twice)?;
+        let mut back = Vec::with_capacity(fed.calls.len());
+        for c in fed.calls.drain(..) {
+            match c.unshift(so, sn) {
+                Some(c) => back.push(c),
+                None => return Err(format!("adapter delivered {:?}: index below the base of the lookups ({}, {})", c, so, sn)),
+            }
+        }
+        fed.calls = back;
+        Ok(fed)
+    } else {
+        run_stack(seq, &seq.old[..], &seq.new[..], script, stack, fail_at, twice)
+    }
+}
+
+fn run_stack<O, N>(
+    seq: &SeqCase,
+    old: &O,
+    new: &N,
+    script: &[Call],
+    stack: Stack,
+    fail_at: Option<usize>,
+    twice: bool,
+) -> Result<Fed, String>
+where
+    O: std::ops::Index<usize, Output = u32> + ?Sized,
+    N: std::ops::Index<usize, Output = u32> + ?Sized,
+{
     let _guard = SimGuard::new(None, seq.hasher);
     let _ = similar::verif::take_hits();
-    let (old, new) = (&seq.old[..], &seq.new[..]);
     let mut h = RecHook::<true>::new(fail_at);
     let (h, r) = match stack {
         Stack::ReplaceRef => {
@@ -194,6 +238,12 @@ impl C10 {
             None => gen_script(&mut Rng::new(case.script_seed), seq),
         };
         let mut dig = Dig::new();
+        if script.len() > 65536 {
+            out.count("history_over_65536_calls", 1);
+        }
+        if seq.index == IndexKind::Far {
+            out.count("far_index_space", 1);
+        }
         let in_ops = calls_to_ops(&script);
         // the producer itself must be a valid script (harness self-check)
         if let Err(f) = walk_ops(&in_ops, &seq.old, &seq.new, seq.or(), seq.nr()) {
@@ -377,13 +427,16 @@ impl Prop for C10 {
             Tier::Thorough => 500_000_000,
         }
     }
-    fn gen(&self, rng: &mut Rng, tier: Tier, _idx: u64) -> Case {
+    fn gen(&self, rng: &mut Rng, tier: Tier, idx: u64) -> Case {
         let size = match rng.weighted(&[85, 15]) {
             0 => Size::Small,
             _ => Size::Medium,
         };
         let mut seq = gen_seq_case(rng, size, None);
-        seq.index = IndexKind::Slice;
+        // a quarter of the histories run over lookups whose index space starts
+        // at a huge base (above 2^32, in the upper half of usize, next to
+        // usize::MAX)
+        seq.index = if rng.chance(1, 4) { IndexKind::Far } else { IndexKind::Slice };
         // very rarely: an insertion that can slide by more than 4096 items
         // (old = B, new = B B, history: equal(B) insert(B))
         let mut script = None;
@@ -408,7 +461,15 @@ impl Prop for C10 {
         // very rarely: a one-item insertion in front of a run of thousands of
         // identical items (thousands of single slide steps), or an equal call
         // of more than 2^20 items right behind an insertion
-        match rng.below(if tier == Tier::Quick { 40_000 } else { 150_000 }) {
+        let mut cap = if tier == Tier::Quick { 64 } else { 1024 };
+        let pick = if idx % 250_000 == 77 {
+            // at fixed places of every batch: a history of more than 2^16 calls
+            cap = 6;
+            5
+        } else {
+            rng.below(if tier == Tier::Quick { 40_000 } else { 150_000 }).min(4 + 2)
+        };
+        match if pick == 5 && idx % 250_000 != 77 { 6 } else { pick } {
             0..=3 => {
                 let run = 1100 + rng.usize(5000);
                 seq.old = vec![7; run];
@@ -428,6 +489,50 @@ impl Prop for C10 {
                 seq.new_range = (0, n + 1);
                 script = Some(vec![Call::Insert(0, 0, 1), Call::Equal(0, 1, n)]);
             }
+            5 => {
+                // a history of more than 2^16 calls (single-item and short
+                // calls, neighbours of one kind that an adapter merges)
+                let target = (1 << 16) + 100 + rng.usize(6000);
+                let alphabet = 2 + rng.below(5) as u32;
+                let (mut old, mut new, mut sc) = (Vec::new(), Vec::new(), Vec::new());
+                // three adjacent deletes first, then a random walk
+                for _ in 0..3 {
+                    sc.push(Call::Delete(old.len(), 1, 0));
+                    old.push(90 + rng.below(2) as u32);
+                }
+                while sc.len() < target {
+                    match rng.weighted(&[50, 25, 25]) {
+                        0 => {
+                            let l = 1 + rng.usize(2);
+                            sc.push(Call::Equal(old.len(), new.len(), l));
+                            for _ in 0..l {
+                                let x = rng.below(alphabet as u64) as u32;
+                                old.push(x);
+                                new.push(x);
+                            }
+                        }
+                        1 => {
+                            let l = 1 + rng.usize(2);
+                            sc.push(Call::Delete(old.len(), l, new.len()));
+                            for _ in 0..l {
+                                old.push(rng.below(alphabet as u64) as u32);
+                            }
+                        }
+                        _ => {
+                            let l = 1 + rng.usize(2);
+                            sc.push(Call::Insert(old.len(), new.len(), l));
+                            for _ in 0..l {
+                                new.push(rng.below(alphabet as u64) as u32);
+                            }
+                        }
+                    }
+                }
+                seq.old_range = (0, old.len());
+                seq.new_range = (0, new.len());
+                seq.old = old;
+                seq.new = new;
+                script = Some(sc);
+            }
             _ => {}
         }
         Case {
@@ -446,7 +551,7 @@ impl Prop for C10 {
             ]),
             reuse: rng.chance(1, 3),
             only_k: None,
-            cap: if tier == Tier::Quick { 64 } else { 1024 },
+            cap,
             sample_seed: rng.next(),
         }
     }
@@ -487,7 +592,10 @@ impl Prop for C10 {
         }
         // simplify the script itself: merge two neighbouring calls of one kind
         if let Some(script) = &case.script {
-            for i in 0..script.len().saturating_sub(1) {
+            // long histories: a bounded sample of merge points (every
+            // candidate is a copy of the whole case)
+            let step = (script.len() / 48).max(1);
+            for i in (0..script.len().saturating_sub(1)).step_by(step) {
                 let merged = match (script[i], script[i + 1]) {
                     (Call::Equal(a, b, l), Call::Equal(_, _, l2)) => Some(Call::Equal(a, b, l + l2)),
                     (Call::Delete(a, l, b), Call::Delete(_, l2, _)) => Some(Call::Delete(a, l + l2, b)),
@@ -523,6 +631,8 @@ impl Prop for C10 {
             ("adapter_fed_twice", agg.counters.get("adapter_fed_twice").copied().unwrap_or(0)),
             ("history_insert_before_delete", agg.faults[F_SCRIPT_INS_BEFORE_DEL]),
             ("history_interleaved", agg.faults[F_SCRIPT_INTERLEAVED]),
+            ("histories_over_2^16_calls", agg.counters.get("history_over_65536_calls").copied().unwrap_or(0)),
+            ("histories_over_far_index_spaces", agg.counters.get("far_index_space").copied().unwrap_or(0)),
         ]
     }
 }
